@@ -136,7 +136,9 @@ class Exec(object):
         if t.kind == 'set': return S.nonempty(v)
         if t.kind == 'list': return list_len(v) > 0
         if t == WORD: return Not(Word.is_nil(v.z))
-        if t.kind == 'opt': return parts(t)[5](v.z)
+        if t.kind == 'opt':
+            inner = SV(t.args[0], parts(t)[3](v.z))
+            return And(parts(t)[5](v.z), self.truth(inner)) if t.args[0] in (BOOL, INT, WORD) or t.args[0].kind in ('set', 'list') else parts(t)[5](v.z)
         if t == NONE: return BoolVal(False)
         if t.kind == 'map':
             k = fresh_z('k', sort_of(t.args[0])); return Exists([k], Select(map_dom(v), k))
@@ -233,6 +235,8 @@ class Exec(object):
             v = self.under(p, guard, lambda: self.ev(p, x))
             tv = self.truth(v)
             vals.append((v, tv))
+            stv = z3.simplify(tv)
+            if (isinstance(e.op, ast.And) and z3.is_false(stv)) or (isinstance(e.op, ast.Or) and z3.is_true(stv)): break    # static short circuit
             guard = And(guard, tv) if isinstance(e.op, ast.And) else And(guard, Not(tv))
         if all(v.t == BOOL for v, _ in vals):
             zs = [tv for _, tv in vals]
@@ -268,6 +272,11 @@ class Exec(object):
             v = self.ev(p, test.args[0]); cls = test.args[1]
             if isinstance(cls, ast.Name) and cls.id == 'set': return v.t.kind == 'set'
             if isinstance(cls, ast.Name) and cls.id == 'str': return v.t in (ATOM, WORD, TEXT)
+            cname = cls.attr if isinstance(cls, ast.Attribute) else cls.id if isinstance(cls, ast.Name) else None
+            if cname in RECORDS or cname == 'Regexp' or cname == 'CFG':
+                if isinstance(v, Gen): return None
+                if v.t.kind == 'rec': return v.t.args[0] == cname
+                return v.t == REGEXP if cname == 'Regexp' else False
         return None
 
     def e_Compare(self, p, e):
@@ -473,7 +482,8 @@ class Exec(object):
                 return self.iterable(p, e.args[0])
             if isinstance(f, ast.Attribute) and isinstance(f.value, ast.Name) and f.value.id == 'itertools':
                 return self.itertools_iter(p, f.attr, e)
-            if isinstance(f, ast.Name) and self.spec_mode and f.id in ('words', 'atoms', 'ints', 'regexps'):
+            if isinstance(f, ast.Name) and self.spec_mode and f.id in ('words', 'atoms', 'ints', 'regexps', 'allwords'):
+                if f.id == 'allwords': return ('typed', WORD, lambda x: BoolVal(True))
                 if f.id == 'words':
                     sg = self.ev(p, e.args[0]); return ('typed', WORD, lambda x: T.over(sg.z, x.z))
                 if f.id == 'atoms': return ('typed', ATOM, lambda x: BoolVal(True))
@@ -493,7 +503,14 @@ class Exec(object):
             srcs = [self.ev(p, a) for a in e.args]
             if rep:
                 n = rep[0].value
-                if not (isinstance(n, ast.Constant) and isinstance(n.value, int)): raise Unsupported('product repeat=var')
+                if not (isinstance(n, ast.Constant) and isinstance(n.value, int)):
+                    # trusted builtin contract B-product-repeat: itertools.product(S, repeat=i) enumerates exactly the tuples of
+                    # length i over S; a tuple of single-character symbols is identified with the word it spells (''.join)
+                    if len(srcs) == 1 and srcs[0].t == SET(ATOM):
+                        k = self.ev(p, n); ps = fresh('words_of_len', SET(WORD)); w = fresh_z('w', Word)
+                        self.assume(p, ForAll([w], Select(ps.z, w) == And(T.over(srcs[0].z, w), T.wlen(w) == k.z)))
+                        return ('set', ps)
+                    raise Unsupported('product repeat=var')
                 srcs = srcs * n.value
             if all(s.t.kind == 'set' for s in srcs):
                 tt = TUP(*[s.t.args[0] for s in srcs]); ps = S_pairs(tt, srcs)
@@ -611,8 +628,9 @@ class Exec(object):
             if self.spec_mode and n == 'iff':
                 return SV(BOOL, self.truth(self.ev(p, e.args[0])) == self.truth(self.ev(p, e.args[1])))
             c = self.reg.find(n, self.c)
+            if c is not None and self.spec_mode: return self.spec_call(p, c, e)
             if c is not None: return self.call_contract(p, c, e)
-            raise Unsupported('call of %s (line %d)' % (n, e.lineno))
+            raise Unsupported('call of %s (line %d)' % (n, getattr(e, 'lineno', 0)))
         if isinstance(f, ast.Attribute) and f.attr == 'union' and len(e.args) == 1 and isinstance(e.args[0], ast.Starred) \
                 and isinstance(f.value, ast.Call) and isinstance(f.value.func, ast.Name) and f.value.func.id == 'set' and not f.value.args:
             inner = e.args[0].value
@@ -627,11 +645,25 @@ class Exec(object):
                 saved = self.c.symbol_is_regexp; self.c.symbol_is_regexp = True
                 try: return self.e_Call(p, e2)
                 finally: self.c.symbol_is_regexp = saved
+            if isinstance(f.value, ast.Attribute) and isinstance(f.value.value, ast.Name) and f.value.value.id == 'gambatools':
+                c = self.reg.find(f.attr, self.c)          # gambatools.<module>.<function>(...)
+                if c is not None: return self.call_contract(p, c, e)
+                raise Unsupported('call of %s (line %d)' % (f.attr, e.lineno))
             if isinstance(f.value, ast.Name) and f.value.id == 'self':
                 c = self.reg.find_method(self.c, f.attr)
                 if c is not None: return self.call_contract(p, c, e, self_arg=self.lookup(p, 'self'))
             return self.method(p, f, e)
         raise Unsupported('call form')
+
+    def spec_call(self, p, cs, e):
+        """in a specification, f(args) for a pure function under contract denotes its result (the function symbol used at
+        call sites); nothing is assumed about it here"""
+        args = [self.ev(p, a) for a in e.args]
+        ok = [c for c in cs if c.pure and len(c.params) == len(args) and all(a.t == c.param_types[n] for a, n in zip(args, c.params))]
+        if len(ok) != 1: raise Unsupported('spec call of %s' % cs[0].qualname)
+        c = ok[0]
+        fn = c.result_fn(','.join(a.t.key for a in args), [sort_of(a.t) for a in args])
+        return SV(c.result_type, fn(*[a.z for a in args]))
 
     def ev_old(self, p, e):
         q = p.clone(); q.env = dict(p.env); q.env.update(p.old); q.alias = {}
@@ -682,6 +714,7 @@ class Exec(object):
             raise Unsupported('set() needs a declared element type')
         a = e.args[0]
         if isinstance(a, ast.List) and not a.elts: raise Unsupported('set([]) needs a declared element type')
+        if isinstance(a, (ast.ListComp, ast.GeneratorExp, ast.SetComp)): return self.set_of_gen(p, self.gen_of(p, a))
         v = self.ev(p, a)
         if isinstance(v, Gen): return self.set_of_gen(p, v)
         if v.t.kind == 'set': return v
@@ -770,6 +803,10 @@ class Exec(object):
         name = f.attr
         if name == 'format':
             return self.format_call(p, f, e)
+        if name == 'join' and isinstance(f.value, ast.Constant) and f.value.value == '' and len(e.args) == 1:
+            v = self.ev(p, e.args[0])
+            if not isinstance(v, Gen) and v.t == WORD: return v
+            raise Unsupported("''.join of %s" % (v.t if not isinstance(v, Gen) else 'generator'))
         o = self.ev(p, f.value)
         args = [self.ev(p, a) if not self.is_empty_literal(a) else None for a in e.args]
         if o.t.kind == 'set':
@@ -944,6 +981,13 @@ class Exec(object):
         if t is not None and self.is_empty_literal(e):
             v = self.empty_of(t, e)
             if v is not None: return v
+        if t is not None and t.kind == 'set' and isinstance(e, ast.Set):
+            return set_lit(t.args[0], [self.coerce(self.ev(p, x), t.args[0]) for x in e.elts])
+        if t is not None and isinstance(e, ast.IfExp) and self.static_isinstance(p, e.test) is None:
+            c = self.truth(self.ev(p, e.test))
+            a = self.under(p, c, lambda: self.ev_hint(p, e.body, t)); b = self.under(p, Not(c), lambda: self.ev_hint(p, e.orelse, t))
+            a, b = self.unify(a, b)
+            return SV(a.t, If(c, a.z, b.z))
         v = self.ev(p, e)
         if isinstance(v, Gen):
             if t is not None and t.kind == 'set': return self.set_of_gen(p, v)
@@ -1036,8 +1080,9 @@ class Exec(object):
         if dt is not None:
             ev = self.empty_of(dt, value)
             if ev is not None: return ev
-        v = self.ev(p, value)
+        v = self.ev_hint(p, value, dt) if dt is not None else self.ev(p, value)
         if isinstance(v, Gen): raise Unsupported('generator assigned to a variable')
+        if dt is not None and v.t == NONE and dt.kind != 'opt': return v      # `x = None` placeholder before the real assignment
         if dt is not None and v.t != dt: v = self.coerce(v, dt)
         return v
 
@@ -1091,6 +1136,9 @@ class Exec(object):
         si = self.static_isinstance(p, st.test)
         if si is not None: return self.run_block([p], st.body if si else st.orelse)
         c = self.truth(self.ev(p, st.test))
+        sc = z3.simplify(c)
+        if z3.is_true(sc): return self.run_block([p], st.body)          # statically decided by the declared types
+        if z3.is_false(sc): return self.run_block([p], st.orelse)
         a = p.clone(); a.pc.append(c)
         b = p.clone(); b.pc.append(Not(c))
         return self.run_block([a], st.body) + self.run_block([b], st.orelse)
@@ -1115,6 +1163,12 @@ class Exec(object):
         saved_res, saved_mode = self.result, self.spec_mode
         self.result, self.spec_mode = v, True
         try:
+            for i, a_ in enumerate(self.c.asserts):
+                g = self.truth(self.ev(p, ast.parse(a_, mode='eval').body))
+                self.spec_mode = False
+                self.oblig(p, 'assert#%d@%d' % (i + 1, line), 'assert', g, line)
+                self.spec_mode = True
+                p.pc.append(g)
             for i, en in enumerate(self.c.ensures):
                 g = self.truth(self.ev(p, ast.parse(en, mode='eval').body))
                 self.spec_mode = False
